@@ -28,11 +28,10 @@
 (* a single cell, records out of row-major order, a STRING record that     *)
 (* does not follow a FORMULA.                                              *)
 (***************************************************************************)
-EXTENDS Rk, FiniteSets
+EXTENDS Rk, FiniteSets, SequencesExt
 
 \* value of a number class: decimal fraction or opaque double
 CONSTANT ClsVal(_)      \* id -> [m, s]  or  [cls |-> id, sc |-> 0] for an opaque class
-CONSTANT SstLen         \* number of strings in the shared string table (ids 0..SstLen-1)
 
 ErrName(v) == CASE v = 0 -> "Null" [] v = 7 -> "Div0" [] v = 15 -> "Value" [] v = 23 -> "Ref"
                 [] v = 29 -> "Name" [] v = 36 -> "Num" [] v = 42 -> "NA" [] v = 43 -> "GettingData"
@@ -49,8 +48,8 @@ Push(st, p, v) == [st EXCEPT !.cells = Append(@, [p |-> p, v |-> v])]
 
 \* parse_bool_err
 BoolErrVal(v, err) ==
-  IF err = 0 THEN [t |-> "b", v |-> (v # 0)]
-  ELSE IF err = 1 THEN (IF v \in ErrCodes THEN [t |-> "e", v |-> ErrName(v)] ELSE [t |-> "fail"])
+  IF err = 0 THEN [t |-> "b", b |-> (v # 0)]
+  ELSE IF err = 1 THEN (IF v \in ErrCodes THEN [t |-> "e", e |-> ErrName(v)] ELSE [t |-> "fail"])
   ELSE [t |-> "fail"]
 
 RStep(st, tk, sst) ==
@@ -67,19 +66,19 @@ RStep(st, tk, sst) ==
               THEN Push(st, <<tk.r, tk.c>>, [t |-> "s", v |-> sst[tk.isst + 1]]) ELSE st
          [] tk.k = "label" -> Push(st, <<tk.r, tk.c>>, [t |-> "s", v |-> tk.s])
          [] tk.k = "boolerr" ->
-              LET v == BoolErrVal(tk.v, tk.err)
-              IN IF v.t = "fail" THEN [st EXCEPT !.err = "Unrecognized"] ELSE Push(st, <<tk.r, tk.c>>, v)
+              (LET v == BoolErrVal(tk.v, tk.err)
+               IN IF v.t = "fail" THEN [st EXCEPT !.err = "Unrecognized"] ELSE Push(st, <<tk.r, tk.c>>, v))
          [] tk.k = "formula" ->
               \* fmla_pos = (row, col); parse_formula_value
-              LET st1 == [st EXCEPT !.fpos = <<tk.r, tk.c>>]
+              (LET st1 == [st EXCEPT !.fpos = <<tk.r, tk.c>>]
                   res == tk.res
               IN CASE res.t = "str"  -> st1
                    [] res.t = "num"  -> Push(st1, <<tk.r, tk.c>>, FloatOf(res.n))
-                   [] res.t = "bool" -> Push(st1, <<tk.r, tk.c>>, [t |-> "b", v |-> (res.v # 0)])
+                   [] res.t = "bool" -> Push(st1, <<tk.r, tk.c>>, [t |-> "b", b |-> (res.v # 0)])
                    [] res.t = "err"  -> IF res.v \in ErrCodes
-                                        THEN Push(st1, <<tk.r, tk.c>>, [t |-> "e", v |-> ErrName(res.v)])
+                                        THEN Push(st1, <<tk.r, tk.c>>, [t |-> "e", e |-> ErrName(res.v)])
                                         ELSE [st1 EXCEPT !.err = "Unrecognized"]
-                   [] res.t = "blank" -> Push(st1, <<tk.r, tk.c>>, [t |-> "s", v |-> ""])
+                   [] res.t = "blank" -> Push(st1, <<tk.r, tk.c>>, [t |-> "s", v |-> ""]))
          [] tk.k = "string" -> Push(st, st.fpos, [t |-> "s", v |-> tk.s])
          [] OTHER -> st      \* blank, mulblank, row, dbcell, dims, shrfmla, unknown: `_ => ()`
 
@@ -99,10 +98,10 @@ FromSparse(cells) ==
        IN IF r1 < r0 \/ \E i \in 1..n : cells[i].p[1] < r0
           THEN [panic |-> "from_sparse: row below the first row"]
           ELSE LET InR(i) == cells[i].p[1] <= r1
-                   Last(p) == SetMax({i \in 1..n : cells[i].p = p})
+                   LastAt(p) == SetMax({i \in 1..n : cells[i].p = p})
                IN [start |-> <<r0, c0>>, end |-> <<r1, c1>>,
                    cells |-> {[p |-> cells[i].p, v |-> cells[i].v] :
-                                i \in {j \in 1..n : InR(j) /\ Last(cells[j].p) = j}}]
+                                i \in {j \in 1..n : InR(j) /\ LastAt(cells[j].p) = j}}]
 
 RECURSIVE RRun(_, _, _, _)
 RRun(st, toks, k, sst) == IF k > Len(toks) THEN st ELSE RRun(RStep(st, toks[k], sst), toks, k + 1, sst)
@@ -126,4 +125,36 @@ Matches(asis, ideal) ==
   /\ asis.start = ideal.start /\ asis.end = ideal.end
   /\ {x.p : x \in asis.cells} = {x.p : x \in ideal.cells}
   /\ \A x \in asis.cells : \A y \in ideal.cells : x.p = y.p => ValAgrees(x.v, y.v)
+
+--------------------------------------------------------------------------
+(* IDEAL read off a token list (used where no logical document is given, i.e. by the trace   *)
+(* specification): "the value at every absolute position equals what the NUMBER, RK, MULRK,   *)
+(* LABELSST, LABEL, BOOLERR and FORMULA(+STRING) records store there".  A FORMULA whose       *)
+(* cached result is a string is followed by [SHRFMLA] STRING, which carries the value.        *)
+IStep(st, tk, sst) ==
+  LET Put(p, v) == [st EXCEPT !.doc = Append(@, [p |-> p, v |-> v])]
+      P == IF "r" \in DOMAIN tk /\ "c" \in DOMAIN tk THEN <<tk.r, tk.c>> ELSE <<0, 0>>
+  IN CASE tk.k = "number" -> Put(P, Tag("f", ClsVal(tk.n)))
+       [] tk.k = "rk" -> Put(P, RkIdeal(tk.rk))
+       [] tk.k = "mulrk" ->
+            [st EXCEPT !.doc = @ \o [j \in 1..Len(tk.rks) |-> [p |-> <<tk.r, tk.c + j - 1>>, v |-> RkIdeal(tk.rks[j])]]]
+       [] tk.k = "labelsst" -> Put(P, [t |-> "s", v |-> sst[tk.isst + 1]])
+       [] tk.k = "label" -> Put(P, [t |-> "s", v |-> tk.s])
+       [] tk.k = "boolerr" -> Put(P, IF tk.err = 0 THEN [t |-> "b", b |-> (tk.v # 0)] ELSE [t |-> "e", e |-> ErrName(tk.v)])
+       [] tk.k = "formula" ->
+            (CASE tk.res.t = "num"  -> Put(P, Tag("f", ClsVal(tk.res.n)))
+               [] tk.res.t = "bool" -> Put(P, [t |-> "b", b |-> (tk.res.v # 0)])
+               [] tk.res.t = "err"  -> Put(P, [t |-> "e", e |-> ErrName(tk.res.v)])
+               [] OTHER -> [st EXCEPT !.pend = P])
+       [] tk.k = "string" -> [doc |-> Append(st.doc, [p |-> st.pend, v |-> [t |-> "s", v |-> tk.s]]), pend |-> <<>>]
+       [] OTHER -> st
+
+IdealOfTokens(toks, sst) ==
+  LET st == FoldLeft(LAMBDA a, tk : IStep(a, tk, sst), [doc |-> <<>>, pend |-> <<>>], toks)
+  IN RangeOf({st.doc[k] : k \in 1..Len(st.doc)})
+
+\* the reader run as a left fold (same as RRun; linear on long token lists)
+AsIsFold(toks, sst) ==
+  LET st == FoldLeft(LAMBDA a, tk : RStep(a, tk, sst), RInit, toks)
+  IN IF st.err # "" THEN [err |-> st.err] ELSE FromSparse(st.cells)
 =============================================================================
